@@ -40,7 +40,7 @@ pub fn ledger_text(case: &Case, printed: &[String]) -> (String, Vec<usize>) {
     (text, entry_line)
 }
 
-pub fn run_ledger(text: &str, entry_line: Vec<usize>, account: &str, txs: &[imptree::TxObs]) -> ProcObs {
+pub fn run_ledger(text: &str, entry_line: Vec<usize>, account: &str, txs: &[imptree::TxObs], funding_ccy: Option<&str>) -> ProcObs {
     // every account / commodity is looked up by position in these lists
     let mut accounts: Vec<String> = vec![account.to_string(), "Equity:Funding".to_string()];
     let mut comms: Vec<String> = Vec::new();
@@ -49,6 +49,9 @@ pub fn run_ledger(text: &str, entry_line: Vec<usize>, account: &str, txs: &[impt
             v.push(s.to_string());
         }
     };
+    if let Some(c) = funding_ccy {
+        add(&mut comms, c);
+    }
     for t in txs {
         for p in &t.posts {
             add(&mut accounts, &p.account);
@@ -165,7 +168,8 @@ pub fn emit(sh: &mut Shards, st: &mut Stats, case: &Case, source: &str) {
                 ("(OErr 9)".to_string(), json!({ "tree_outside_import_shape": m }), None)
             } else {
                 let (text, entry_line) = ledger_text(case, &printed);
-                let p = run_ledger(&text, entry_line, &imp.account, &txs);
+                let fccy = case.stmts.first().and_then(|s| s.balances.iter().find(|b| b.opening)).map(|b| b.amt.ccy.clone());
+                let p = run_ledger(&text, entry_line, &imp.account, &txs, fccy.as_deref());
                 let (pt, pj) = match &p {
                     ProcObs::Accepted(f) => {
                         st.count("impl:process:accepted");
